@@ -279,6 +279,40 @@ func SolveAll(reps []*FuncReport, dir string, timeoutS, seed, need, workers int)
 	}
 	close(ch)
 	wg.Wait()
+	// Second pass: a few undecided obligations get a long timeout with little
+	// contention (guards against false alarms on a loaded machine).  Many undecided
+	// obligations mean the code really changed; they are not retried.
+	var retry []job
+	for _, j := range jobs {
+		if j.o.Result != nil && j.o.Result.Status == "unknown" && j.o.Expect != "sat" {
+			retry = append(retry, j)
+		}
+	}
+	if len(retry) == 0 || len(retry) > 6 {
+		return
+	}
+	var wg2 sync.WaitGroup
+	ch2 := make(chan job)
+	for w := 0; w < 2; w++ {
+		wg2.Add(1)
+		go func() {
+			defer wg2.Done()
+			for j := range ch2 {
+				first := j.o.Result
+				r := Solve(j.rep, j.o, dir, j.idx+200000, timeoutS*4, seed, need)
+				r.TimeS += first.TimeS
+				if r.Status == "unsat" {
+					r.Solver += "(retry)"
+				}
+				j.o.Result = r
+			}
+		}()
+	}
+	for _, j := range retry {
+		ch2 <- j
+	}
+	close(ch2)
+	wg2.Wait()
 }
 
 // symbolsOf extracts the user-declared symbols (those containing '!' or with the
